@@ -507,7 +507,7 @@ Proof.
   rewrite (peek_until_at is_space_or_tab cs p3 (pre ++ render_time a ++ spaces sp1 ++ [45%N] ++ spaces sp2) (render_time b) tail
              ltac:(unfold cs; rewrite Erb; app_eq) ltac:(unfold p3, spaces; len_eq)
              (plain_not_space_or_tab _ Pl) (tail_stops tail T)).
-  cbv iota beta. rewrite Erb at 1. change (Nat.eqb (length (c0 :: r0)) 0) with false. cbv iota.
+  cbv iota beta. assert (Ne : Nat.eqb (length (render_time b)) 0 = false) by (rewrite Erb; reflexivity). rewrite Ne. cbv iota.
   unfold str. rewrite (utf8_encode_ascii _ As), (parse_render_time b Wb).
   unfold new_range, time_geb. rewrite !timeline_offset by assumption.
   destruct (timeline b >=? timeline a) eqn:E; [lia|]. eexists; reflexivity.
@@ -524,10 +524,10 @@ Proof.
   destruct (render_value v) as [|c r] eqn:Ev; [contradiction|].
   cbn [ascii forallb] in As. apply andb_true_iff in As as [Hc _].
   assert (Eb : utf8_encode t = indent_text i ++ c :: utf8_encode (r ++ tail)).
-  { unfold t. rewrite Ev. rewrite utf8_encode_app, (utf8_encode_ascii _ (indent_ascii i)). cbn [app]. rewrite (encode_cons_ascii _ _ Hc). reflexivity. }
+  { unfold t. rewrite ?Ev. rewrite utf8_encode_app, (utf8_encode_ascii _ (indent_ascii i)). cbn [app]. rewrite (encode_cons_ascii _ _ Hc). reflexivity. }
   split; [exact Tok|]. split; [eexists; eexists; split; [exact Eb|exact Hd]|].
   split; [rewrite Eb; apply has_prefix_app|].
-  unfold t. rewrite Ev. rewrite (peek_at_cons _ _ (indent_text i) c (r ++ tail) eq_refl eq_refl). exact Hd.
+  unfold t. rewrite ?Ev. rewrite (peek_at_cons _ _ (indent_text i) c (r ++ tail) eq_refl eq_refl). exact Hd.
 Qed.
 
 (* ---- B2: a second open range ---- *)
